@@ -575,7 +575,9 @@ class SecopClient(ProxyClient):
         self.disconnect_time = time.time()
         try:  # make sure txq does not block
             while not self.txq.empty():
-                self.txq.get(False)
+                entry = self.txq.get(False)
+                if entry:
+                    entry[1].set()  # release the caller of a request which was not sent
         except Exception:
             pass
         if self.io:
